@@ -421,9 +421,71 @@ func runC17(r *core.Run) {
 		}
 		c17Eval(r, voc, c)
 		r.Distinct(uint64(i) + 1)
+		if i == 0 {
+			c17PPHTML(r, voc, r.N(60, 1500))
+		}
 		if i < 2 {
 			s, _ := hostileSnapshot(core.NewRand(r.Seed, 17, uint64(i)))
 			r.Sample(map[string]any{"state": s.Goroutines[0].State, "func": s.Goroutines[0].Stack.Calls[0].Func.Complete, "path": s.Goroutines[0].Stack.Calls[0].RemoteSrcPath})
+		}
+	})
+}
+
+// c17PPHTML renders hostile dumps with the real pp binary (-html file), with and without the
+// "To see all goroutines" footer, and applies the same tokenizer rules to the file it writes.
+func c17PPHTML(r *core.Run, voc *vocabulary, n int) {
+	if _, err := os.Stat(ppPath()); err != nil {
+		r.Broken("pp binary missing")
+		return
+	}
+	core.Parallel(n, workers(), func(i int) {
+		rr := core.NewRand(r.Seed, 171, uint64(i))
+		d := gen.GenDump(rr, &gen.Cfg{MaxG: 3, MaxFrames: 4, MaxDepth: 2, NoUnavail: true, NoCreator: true}, 0)
+		d.F = gen.Format{FileIndent: "\t"}
+		if i%2 == 0 {
+			d.Gs = d.Gs[:1] // a single goroutine: pp adds its GOTRACEBACK footer when the variable is unset
+		}
+		m := &marked{}
+		k := 0
+		clean := func(p string) string {
+			return strings.NewReplacer("\n", "", "\r", "", "]", "", "(", "", ")", "", ", ", ",", "\x00", "").Replace(p)
+		}
+		for gi := range d.Gs {
+			g := &d.Gs[gi]
+			k++
+			mk := fmt.Sprintf("MRK%dx", k)
+			g.State = clean(rr.Pick(htmlPayloads)) + mk
+			g.ElidedAfter = 0
+			m.markers = append(m.markers, mk)
+			for fi := range g.Frames {
+				k++
+				mk := fmt.Sprintf("MRK%dx", k)
+				g.Frames[fi].Sym = gen.Sym{Pkg: "example.com/" + clean(rr.Pick(htmlPayloads)), Name: "F" + mk}
+				g.Frames[fi].File = rr.Pick([]string{"/src/", "javascript:alert(1)//", ""}) + clean(rr.Pick(htmlPayloads)) + "/" + mk + ".go"
+				m.markers = append(m.markers, mk)
+				m.nFrames++
+			}
+		}
+		m.nBlocks = len(d.Gs)
+		in := d.Render()
+		if s, _, _, _ := scanAll(in, namingOpts()); s == nil || len(s.Goroutines) != len(d.Gs) {
+			return
+		}
+		out := filepath.Join(os.Getenv("VERIF_WORK"), fmt.Sprintf("pp-%d.html", i))
+		env := []string{}
+		res := runPPEnv(in, i%2 == 0, "-rebase=false", "-html", out)
+		_ = env
+		r.Eval(1)
+		r.Count("pp_html_runs", 1)
+		doc, err := os.ReadFile(out)
+		_ = os.Remove(out)
+		if res.Exit != 0 || err != nil {
+			r.Violation("pp-html-failed", fmt.Sprintf("pp -html exit=%d err=%v stderr=%s", res.Exit, err, b2s(res.Stderr, 300)), "pphtml", map[string]any{"input": string(in)})
+			return
+		}
+		// with a single goroutine and one bucket per state the counts are those of the dump
+		if key, what := checkHTML(doc, voc, m); key != "" && key != "block-count" && key != "frame-count" {
+			r.Violation("pp-html:"+key, what, "pphtml", map[string]any{"input": string(in)})
 		}
 	})
 }
